@@ -89,6 +89,26 @@ class Oracle:
         if name == "wb.frags":
             self.handover = False
             return None
+        if name in ("c.scanall", "c.rawscan"):
+            # a full iteration - during the hand-over as well as afterwards - yields exactly the live keys
+            dm = a[2] if name == "c.scanall" else a[0]
+            if not reply.startswith("n="):
+                return "iteration over %s: %s" % (dm, reply[:80])
+            got = reply.split()[1:]
+            live = {k for (d, k) in self.exp if d == dm}
+            self.hit("scan_during_handover" if self.handover else "scan_after_stabilisation")
+            if name == "c.scanall" and len(set(got)) != len(got):
+                return "the client iterator over %s yielded a key twice: %s" % (dm, sorted(got)[:12])
+            extra, missing = sorted(set(got) - live), sorted(live - set(got))
+            if self.handover or name == "c.rawscan":
+                # while tables are on the move a key may be met on neither side of one pass (C12 is about stable membership);
+                # the raw walk of the harness asks the primary owner's primary copies only: after a leave a key may live on the
+                # promoted member's backup fragment, which the client iterator reads (RC) and this walk does not
+                missing = []
+            if extra or missing:
+                return "a full iteration over %s (%s) yielded %d keys: deleted / foreign keys %s, missing keys %s" % (
+                    dm, "client iterator" if name == "c.scanall" else "raw DM.SCAN cursors", len(got), extra[:8], missing[:8])
+            return None
         if name == "wb.keys":
             dm = a[0]
             prim, bak = {}, {}
@@ -209,6 +229,13 @@ class Gen:
                 yield "c.balance %d" % r.choice(alive)
                 for op in op_mix(4):
                     yield op
+                if r.random() < 0.35:
+                    # a full iteration while some tables have moved and others have not
+                    d = r.choice(DMS)
+                    if r.random() < 0.5:
+                        yield "c.scanall emb %d %s * %d" % (r.choice(alive), d, r.choice([1, 3, 100]))
+                    else:
+                        yield "c.rawscan %s * %d" % (d, r.choice([1, 3, 100]))
                 if r.random() < 0.3:
                     yield "c.update"
             rep = yield "c.settle"
@@ -220,3 +247,6 @@ class Gen:
                     yield "c.get emb %d %s %s" % (m, d, key)
             for d in DMS:
                 yield "wb.keys %s" % d
+            for d in DMS:
+                yield "c.scanall %s %d %s * %d" % (r.choice(["emb", "cli"]), r.choice(alive), d, r.choice([1, 2, 10]))
+                yield "c.rawscan %s * %d" % (d, r.choice([1, 2, 10]))
